@@ -115,7 +115,7 @@ WorldSpec gen_world(const std::string& prop, uint64_t run_seed, const GenOpts& o
         }
     }
     // ---- matrix class ----
-    const bool want_breakdown = (prop == "C01" || prop == "C02" || prop == "C07");
+    const bool want_breakdown = (prop == "C01" || prop == "C02" || prop == "C03" || prop == "C07" || prop == "C14" || prop == "C20");
     if (family_is_general(w.family))
         w.mclass = weighted(r, {{M_RANDOM, 4}, {M_NORMAL, 2}, {M_TRIANGULAR, 1.5}, {M_SEPARATED, 2}, {M_SPARSEPAT, 1.5},
                                 {M_BLOCKDIAG, want_breakdown ? 2.0 : 0.7}, {M_CLUSTERED, 0.5}});
@@ -137,6 +137,12 @@ WorldSpec gen_world(const std::string& prop, uint64_t run_seed, const GenOpts& o
     if (r.chance(0.35)) w.variant |= 1;
     if (family_has_B(w.family) && r.chance(0.35)) w.variant |= 2;
     if ((w.family == F_SYM || w.family == F_HERM || w.family == F_SYMSHIFT) && r.chance(0.25)) w.variant |= 4;
+    if (w.family == F_GSHIFTINV || w.family == F_GBUCK || w.family == F_GCAYLEY)
+    {
+        // triangle options of SymShiftInvert (all 16 storage x triangle pairings are built)
+        if (r.chance(0.3)) w.variant |= 16;
+        if (r.chance(0.3)) w.variant |= 32;
+    }
     // ---- B ----
     if (family_has_B(w.family))
     {
